@@ -131,6 +131,62 @@ end Enc
 
 namespace Decode
 
+theorem lastIdxE_lt : ∀ (cs : Bytes) (i : Nat) (acc : Option Nat) (j : Nat),
+    lastIdxE cs i acc = some j → acc = some j ∨ (i ≤ j ∧ j < i + cs.length)
+  | [], _, acc, j, h => by simp [lastIdxE] at h; exact Or.inl h
+  | c :: cs, i, acc, j, h => by
+    rw [lastIdxE] at h
+    rcases lastIdxE_lt cs (i + 1) _ j h with h1 | ⟨h1, h2⟩
+    · by_cases hc : (c == 101 || c == 69) = true
+      · rw [if_pos hc] at h1
+        right
+        have : i = j := by simpa using h1
+        subst this
+        exact ⟨Nat.le_refl _, by simp⟩
+      · rw [if_neg hc] at h1; exact Or.inl h1
+    · right; exact ⟨by omega, by simp only [List.length_cons]; omega⟩
+
+theorem exponentTooLarge_noPanic (str : Bytes) : (exponentTooLarge str).isPanic = false := by
+  unfold exponentTooLarge
+  cases hl : lastIdxE str 0 none with
+  | none => rfl
+  | some i =>
+    simp only
+    have hi : i < str.length := by
+      rcases lastIdxE_lt str 0 none i hl with h | ⟨_, h⟩
+      · cases h
+      · omega
+    by_cases he : i + 1 = str.length
+    · rw [if_pos he]; rfl
+    · rw [if_neg he, slice_ok (by omega) (Nat.le_refl _), bind_ok]
+      have hlen : ((str.drop (i + 1)).take (str.length - (i + 1))).length = str.length - (i + 1) := by
+        rw [List.length_take, List.length_drop]; omega
+      have hpos : 0 < ((str.drop (i + 1)).take (str.length - (i + 1))).length := by omega
+      simp only [idx_ok hpos, bind_ok]
+      have hsigned : ∀ (x : Outcome Bool) (k : Bool → Outcome Bool), (∃ b, x = .ok b) → (∀ b, (k b).isPanic = false) →
+          (x.bind k).isPanic = false := by
+        intro x k ⟨b, hb⟩ hk
+        rw [hb, bind_ok]; exact hk b
+      apply hsigned
+      · by_cases h43 : (((str.drop (i + 1)).take (str.length - (i + 1)))[0] == 43) = true
+        · rw [if_pos h43]; exact ⟨_, rfl⟩
+        · rw [if_neg h43]; exact ⟨_, rfl⟩
+      intro signed
+      have hd : ∀ (d : Outcome Bytes) (k : Bytes → Outcome Bool), d.isPanic = false → (∀ x, (k x).isPanic = false) → (d.bind k).isPanic = false := by
+        intro d k h1 h2
+        cases d with
+        | ok x => exact h2 x
+        | err e => rfl
+        | panic w => simp at h1
+      apply hd
+      · cases signed
+        · rfl
+        · simp only [if_true]
+          rw [slice_ok (by omega) (Nat.le_refl _)]; rfl
+      · intro d
+        refine ite_noPanic _ _ _ rfl (ite_noPanic _ _ _ rfl ?_)
+        cases atoi d <;> rfl
+
 theorem assertTy_self (f : Ty) : assertTy f f = .ok () := by simp [assertTy]
 
 mutual
